@@ -426,6 +426,11 @@ def run(rep, ix, tier):
     # attribute values are decoded by the RP66V1 representation-code readers (pRepCode.py is an anchor): same rule as C07
     from . import C07
     C07.run_rp66(rep, ix)
+    # encrypted records keep their body whole (the pad count of an encrypted body is cipher text): the strip is decided by
+    # must_strip_padding = pad bit and not encrypted; same rule as C01
+    from . import C01
+    C01.check_pad(rep, ix, ix.module(C01.M))
+    rep.floor('R-C01-PAD', 6)
     rep.floor('R-C07-VALUE', 25)
     rep.floor('R-C03-CD', 30)
     rep.floor('R-C03-ORDER', 25)
